@@ -37,8 +37,10 @@ pub const GROWTH: usize = 512 << 20;
 pub const REFUSE: usize = 1 << 30;
 pub const MAX_INPUT: usize = 4 << 20;
 /// M4: soft per-call budget (recorded as a note, not a violation) and hard budget before kill+confirm.
-pub const SOFT_BUDGET: Duration = Duration::from_secs(5);
-pub const HARD_BUDGET: Duration = Duration::from_secs(30);
+/// Inputs are <= 4 MiB and an ordinary call takes well under 10 ms; the library's own limits (100 MiB per decompressed
+/// file) put a legitimate worst case at a second or two.
+pub const SOFT_BUDGET: Duration = Duration::from_secs(2);
+pub const HARD_BUDGET: Duration = Duration::from_secs(6);
 
 // ------------------------------------------------------------------ libc ----
 
@@ -825,6 +827,9 @@ pub struct Probe<'a> {
     pub scratch: PathBuf,
     /// true when every call of the current mutant returned Ok
     pub all_ok: bool,
+    /// the driver's own judgement "the seed did what a valid file does" (defaults to `all_ok`); set by drivers whose
+    /// call list contains calls that fail by design on a valid file (negative lookups)
+    pub seed_valid: Option<bool>,
 }
 
 impl<'a> Probe<'a> {
@@ -947,12 +952,13 @@ pub struct FormatTotals {
     pub variants: BTreeMap<String, BTreeSet<String>>, // entry -> error variants
     pub max_req: u64,
     pub slow: Vec<Value>,
+    pub confirmed_hangs: BTreeSet<String>,
 }
 
 enum SliceEnd {
     Finished,
     Died { status: i32, k: usize, entry: usize, in_call: bool },
-    Hung { k: usize, entry: usize },
+    Hung { k: usize, entry: usize, site: String },
 }
 
 struct SliceOut {
@@ -996,6 +1002,36 @@ fn classify_death(status: i32, stderr: &str) -> String {
     }
 }
 
+/// Where is the hung child? First frame (innermost) whose source file belongs to the tree under test, spelled like the
+/// panic / allocation sites: "<crate>/<file under src>:<function>". Empty string if gdb is unavailable.
+fn gdb_site(pid: i32) -> String {
+    let out = std::process::Command::new("timeout")
+        .args(["20", "gdb", "-p", &pid.to_string(), "-batch", "-ex", "set filename-display absolute", "-ex", "bt 60"])
+        .stdin(std::process::Stdio::null())
+        .stderr(std::process::Stdio::null())
+        .output();
+    let Ok(out) = out else { return "?".into() };
+    let text = String::from_utf8_lossy(&out.stdout);
+    for l in text.lines() {
+        if !l.starts_with('#') {
+            continue;
+        }
+        let Some((head, path)) = l.rsplit_once(" at ") else { continue };
+        let in_tree = ["/file-formats/", "/ffi/storm-ffi/"].iter().filter_map(|m| path.find(m)).min();
+        if let Some(pos) = in_tree.filter(|_| !path.contains("/registry/src/")) {
+            let rel = &path[pos + 1..];
+            let file = rel.split(':').next().unwrap_or(rel);
+            let short = file.rsplit("/src/").next().unwrap_or(file);
+            let krate = file.split("/src/").next().unwrap_or("").rsplit('/').next().unwrap_or("");
+            // "#5  0x... in func<...> (args) " or "#5  func (args)"
+            let h = head.split_once(" in ").map(|x| x.1).unwrap_or_else(|| head.splitn(2, "  ").nth(1).unwrap_or(head));
+            let func = h.trim().split(" (").next().unwrap_or("").trim();
+            return format!("{krate}/{short}:{}", clean_sym(func));
+        }
+    }
+    "?".into()
+}
+
 #[allow(clippy::too_many_arguments)]
 fn run_slice(fmt: &FormatDef, seed: &Seed, muts: &[(usize, &Mut)], verif_seed: u64, case_idx: u64, shm: &Shm, scratch: &PathBuf, budget: Duration) -> SliceOut {
     let mut fds = [0i32; 2];
@@ -1027,18 +1063,19 @@ fn run_slice(fmt: &FormatDef, seed: &Seed, muts: &[(usize, &Mut)], verif_seed: u
         let r = trap(|| {
             let mut p = Probe {
                 fmt: fmt.name, entries: fmt.entries, shm, fd: fds[1], k: 0, seed_label: seed.label.clone(), mdesc: Value::Null,
-                case_idx, variants_sent: BTreeSet::new(), sigs_sent: BTreeSet::new(), scratch: scratch.clone(), all_ok: true,
+                case_idx, variants_sent: BTreeSet::new(), sigs_sent: BTreeSet::new(), scratch: scratch.clone(), all_ok: true, seed_valid: None,
             };
             for (k, m) in muts {
                 let bytes = apply(fmt, seed, m, verif_seed);
                 p.k = *k;
                 p.mdesc = m.describe();
                 p.all_ok = true;
+                p.seed_valid = None;
                 shm.set(S_K, *k as u64);
                 (fmt.drive)(seed, &bytes, &mut p);
                 shm.add(S_DONE, 1);
                 if matches!(m, Mut::Identity) {
-                    p.send(&json!({"t": "identity", "ok": p.all_ok}));
+                    p.send(&json!({"t": "identity", "ok": p.seed_valid.unwrap_or(p.all_ok)}));
                 }
             }
         });
@@ -1097,11 +1134,12 @@ fn run_slice(fmt: &FormatDef, seed: &Seed, muts: &[(usize, &Mut)], verif_seed: u
             last_seq = seq;
             last_change = Instant::now();
         } else if last_change.elapsed() > budget {
+            let hang_site = gdb_site(pid);
             unsafe {
                 sys::kill(pid, sys::SIGKILL);
                 sys::waitpid(pid, &mut status, 0);
             }
-            end = SliceEnd::Hung { k: shm.get(S_K) as usize, entry: shm.get(S_ENTRY) as usize };
+            end = SliceEnd::Hung { k: shm.get(S_K) as usize, entry: shm.get(S_ENTRY) as usize, site: hang_site };
             break;
         }
     }
@@ -1193,22 +1231,32 @@ pub fn run_batch(c: &mut Case, fmt: &FormatDef, seed: &Seed, muts: &[(usize, &Mu
                 }
                 pos = mpos + 1;
             }
-            SliceEnd::Hung { k, entry } => {
+            SliceEnd::Hung { k, entry, site } => {
                 let ename = fmt.entries.get(entry).copied().unwrap_or("?");
                 let mpos = locate(k).unwrap_or(pos);
-                // confirmation: the single mutant alone, 4x budget
-                let again = run_slice(fmt, seed, &muts[mpos..mpos + 1], verif_seed, c.idx, shm, scratch, HARD_BUDGET * 4);
                 let mdesc = muts[mpos].1.describe();
-                match again.end {
-                    SliceEnd::Hung { .. } => {
-                        c.count(&format!("{f}|outcome|hang"), 1);
-                        c.violate(format!("hang|{f}|{ename}"), format!("{ename} did not return within {} s (confirmed alone with a 4x budget)", HARD_BUDGET.as_secs() * 4),
-                                  json!({"format": f, "entry": ename, "seed": seed.label, "mutation": mdesc, "case": c.idx, "mutant": k}));
-                    }
-                    _ => {
-                        c.count(&format!("{f}|watchdog_fired_once"), 1);
-                        c.inconclusive("watchdog-fired-once");
-                        c.note(json!({"watchdog_fired_once": {"seed": seed.label, "mutation": mdesc, "entry": ename}}));
+                let sig = format!("hang|{f}|{ename}|{site}");
+                if totals.confirmed_hangs.contains(&sig) {
+                    // the same loop at the same site has already been confirmed with the 4x budget in this process
+                    c.count(&format!("{f}|outcome|hang"), 1);
+                    c.violate(sig, format!("{ename} did not return within {} s at {site} (site already confirmed as non-terminating in this run)", HARD_BUDGET.as_secs()),
+                              json!({"format": f, "entry": ename, "seed": seed.label, "mutation": mdesc, "case": c.idx, "mutant": k, "reconfirmed": false}));
+                } else {
+                    // confirmation: the single mutant alone, 4x budget
+                    let again = run_slice(fmt, seed, &muts[mpos..mpos + 1], verif_seed, c.idx, shm, scratch, HARD_BUDGET * 4);
+                    match again.end {
+                        SliceEnd::Hung { site: site2, .. } => {
+                            let sig = format!("hang|{f}|{ename}|{site2}");
+                            c.count(&format!("{f}|outcome|hang"), 1);
+                            totals.confirmed_hangs.insert(sig.clone());
+                            c.violate(sig, format!("{ename} did not return within {} s at {site2} (confirmed alone with a 4x budget)", HARD_BUDGET.as_secs() * 4),
+                                      json!({"format": f, "entry": ename, "seed": seed.label, "mutation": mdesc, "case": c.idx, "mutant": k, "reconfirmed": true}));
+                        }
+                        _ => {
+                            c.count(&format!("{f}|watchdog_fired_once"), 1);
+                            c.inconclusive("watchdog-fired-once");
+                            c.note(json!({"watchdog_fired_once": {"seed": seed.label, "mutation": mdesc, "entry": ename, "site": site}}));
+                        }
                     }
                 }
                 pos = mpos + 1;
